@@ -36,14 +36,15 @@ SumOf(f)  == f[2]
 FpStr(f)  == f[1] \o ":" \o f[2]
 KeyIds  == {"<kid.plain>", "<kid.email>", "<kid.spaces>", "<kid.parens>", "<kid.serialword>", "<kid.phrase>"}
 Serials == {"0", "18446744073709551615", "<ser.rand>"}
-Paths   == {"<path.plain>", "<path.spaces>"}
+Paths   == {"<path.plain>", "<path.spaces>", "<path.odd>"}   \* odd: not canonical (//, /./, /../, trailing /, relative)
 Dns     == {"<dns.plain>", "<dns.odd>"}
 Reasons == {"<reason.plain>", "<reason.colon>", "<reason.long>"}
 
 \* Hostile client-chosen names (C17): sshd prints them verbatim (%.100s).
 Hostile == {"<evil.space>", "<evil.fromport>", "<evil.fromportssh>", "<evil.words>", "<evil.long>",
             "<evil.trailfrom>", "<evil.quote>", "<evil.preauth>", "<evil.dict>", "<evil.form>", "<evil.empty>",
-            "<evil.other>"}    \* phrases of sshd messages the daemon does NOT handle ("Disconnected from ...", pam lines)
+            "<evil.other>",
+            "<evil.escape>"}   \* backslash sequences as sshd's own escaping prints them (\\012, \\n, \\303\\251, a lone backslash)    \* phrases of sshd messages the daemon does NOT handle ("Disconnected from ...", pam lines)
 
 Kid0 == "<kid.email>"   Pa0 == "<path.plain>"   D0 == "<dns.plain>"
 A0 == "<acct.plain>"   K0 == "ED25519"   F0 == <<"SHA256", "<fp.b64>">>
